@@ -266,18 +266,25 @@ def check_invalid_fit(ml, cls, kw, seed):
   return None
 
 
+REAL_FITS = {}
+
+
 def check_real_fit(ml, cls, strategy, kw, seed):
   """fit(pairs, y, calibration_params=...) on a small training set, then the optimality oracle on the learned distances"""
   pairs, y = train_pairs(np.random.RandomState(seed), n=14, d=2)
-  ctor = dict(ITML=dict(random_state=0, max_iter=50), MMC=dict(random_state=0, max_iter=20), SDML=dict(random_state=0, prior='identity', sparsity_param=0.01))[cls]
+  ctor = dict(ITML=dict(random_state=0, max_iter=50), MMC=dict(random_state=0, max_iter=20), SDML=dict(random_state=0, prior='identity', balance_param=0.01, sparsity_param=0.5))[cls]
   est = getattr(ml, cls)(**ctor)
   with warnings.catch_warnings():
     warnings.simplefilter('ignore')
     try:
       with np.errstate(all='ignore'):
         est.fit(pairs, y, calibration_params=dict(strategy=strategy, **kw))
-    except Exception:
+    except Exception as e:
+      if hasattr(est, 'components_'):     # the metric was learned: the failure is the calibration's
+        return '%s-optimal' % strategy, 'fit raised %s after the metric was learned: %s' % (type(e).__name__, str(e)[:200])
+      REAL_FITS['solver failed'] = REAL_FITS.get('solver failed', 0) + 1
       return None          # the solver's own failure modes are not this property's concern
+    REAL_FITS['completed'] = REAL_FITS.get('completed', 0) + 1
     bad = check_calibrated(est, pairs, y, strategy, kw)
   return bad
 
@@ -337,6 +344,7 @@ def cases(tier, seed):
 def run(tier, seed):
   ml = repo()
   _estimator()
+  REAL_FITS.clear()
   work = blocks(tier)
   ctx = multiprocessing.get_context('fork')
   with ctx.Pool(min(16, multiprocessing.cpu_count())) as pool:
@@ -357,7 +365,7 @@ def run(tier, seed):
       s[1] += b
   distinct = n
   samples = ['grid n=3 y=(-1,-1,1) d=(0,0,0) accuracy', 'grid n=5 y=(1,-1,1,-1,-1) d=(2,0,1,1,0) max_tpr min_rate=0.5',
-             'perm n=5 y=(1,1,-1,1,-1) d=(3,0,4,1,2) f_beta beta=2']
+             'perm n=5 y=(1,1,-1,1,-1) d=(3,0,4,1,2) f_beta beta=1']
   for desc, tags, fn, inp, sig in side_cases(ml, tier, seed):
     n += 1
     distinct += 1
@@ -383,7 +391,7 @@ def run(tier, seed):
                    'ITML/MMC/SDML.fit (with _fit wrapped to count calls), the n <= 3 grid on MMC and SDML, and real fits with calibration_params; '
                    'every (instance, strategy, parameter) is distinct' % enum,
               bound=bound,
-              standin_samples=samples,
+              standin_samples=samples, real_fits=dict(REAL_FITS),
               per_strategy={'%s/%s' % (k[0], 'tied' if k[1] else 'distinct'): dict(evaluations=v[0], violations=v[1]) for k, v in sorted(stats.items())},
               violations=list(found.values()))
 
